@@ -220,7 +220,7 @@ fn gen_case(max_l: usize, dealer_prob: u32) -> impl Strategy<Value = Case> {
 pub fn run(tier: Tier, seed: u64) -> i32 {
     let ctx = Ctx::new("C10", tier, seed, "exploration");
     ctx.set_rule("proptest: n in 2..5 x batch length l (1..12, boundary values where (l*15+160) crosses a multiple of 128, up to 600 in quick / 5000 in thorough, plus 3100 (bucket size 4) and in thorough 280000 at n=2 (bucket size 3)) x alpha/beta shares built as XOR of 0..3 random outputs of a previous aShare call (zero share, alpha=beta, shared operands) x global keys x schedule, through the real aShare / Beaver-aAND code (plain-typed wrappers) and through the trusted dealer speaking the engine's wire format; oracle: for every index and ordered pair (i,j) MAC_i[j] = key_j[i] XOR bit_i*delta_j for random shares and AND shares, XOR of sigma shares = (XOR alpha)(XOR beta), identical multi-party and pairwise coins; non-trivial = l >= 2 with some alpha != beta; distinct by hash of the case");
-    prop_search(&ctx, "c10", tier.pick(140, 1500), || gen_case(tier.pick(600, 5000), 25), test_case);
+    prop_search(&ctx, "c10", tier.pick(140, 6000), || gen_case(tier.pick(600, 5000), 25), test_case);
     if !ctx.stopped() {
         // bucket size 4 (l >= 3100) and, in thorough, 3 (l >= 280000)
         let mut big = vec![Case { n: 2, l: 3100, base: 6, recipe_seed: seed, deltas: vec![seed as u128 | 1 << 100, !(seed as u128)], dealer: false, sched: SchedSpec::Eager }, Case { n: 2, l: 3099, base: 6, recipe_seed: seed + 1, deltas: vec![7, 1 << 127], dealer: false, sched: SchedSpec::Eager }];
